@@ -13,7 +13,8 @@ import (
 // userset (team#member: [group#member]) — so the weighted reverse expansion arrives at the same
 // weighted-graph edge with different relation stacks of equal length — and each path contributes
 // different objects.  A further family has 3-operand (and nested) intersections whose operands
-// have differing sizes (more objects per type), for the pipeline's Intersection worker.
+// have differing sizes (designed small / medium / large operand sets per user, see wideIntersection),
+// for the pipeline's Intersection worker.
 // Tuples, conditions and request context come from the shared generator.
 func GenerateC05(r *rec.Rand, o GenOpts) *Scenario {
 	g := &gen{r: r, o: o, s: &Scenario{}}
@@ -92,27 +93,7 @@ func GenerateC05(r *rec.Rand, o GenOpts) *Scenario {
 				{Name: "viewer", RW: wrap(Union(Comp("editor"), TTU("parent", "member"), TTU("parent", "viewer")))},
 			}, extra...)}}
 	default: // n-ary intersections with operands of differing sizes
-		g.s.Shape = "c05-wide-intersection"
-		g.o.MaxObjects = 5
-		g.o.MaxTuples = 60
-		ops := []*Rewrite{Comp("owner"), Comp("editor"), Comp("viewer")}
-		rec.Shuffle(r, ops)
-		var rw *Rewrite
-		switch r.Intn(3) {
-		case 0:
-			rw = Inter(ops...)
-		case 1:
-			rw = Inter(ops[0], Inter(ops[1], ops[2]))
-		default:
-			rw = Inter(This(), ops[0], ops[1], ops[2])
-		}
-		g.s.Types = []TypeDef{user, group, {Name: "doc", Rels: []RelDef{
-			{Name: "owner", RW: This(), Restr: []Restr{RObj("user")}},
-			{Name: "editor", RW: This(), Restr: []Restr{RObj("user"), g.maybeCond(RSet("group", "member"))}},
-			{Name: "viewer", RW: This(), Restr: []Restr{RObj("user"), RWild("user")}},
-			allowedRel(rw),
-			{Name: "member", RW: Inter(Comp("allowed"), Comp("owner"))},
-		}}}
+		return g.wideIntersection()
 	}
 	if g.o.MaxTuples < 45 {
 		g.o.MaxTuples = 45
@@ -129,4 +110,81 @@ func allowedRel(rw *Rewrite) RelDef {
 		rd.Restr = []Restr{RObj("user")}
 	}
 	return rd
+}
+
+// wideIntersection: three directly assignable relations owner / editor / viewer of doc and three
+// 3-operand intersections over them with independent random operand orders (plus a 4-operand and a
+// nested one).  For every user the three operand relations get, in a random assignment, a SMALL
+// set {all, two}, a MEDIUM set {all, m1, m2} and a LARGE set {all, two, l1, l2}: the sets have
+// pairwise different sizes, `all` is in every one, and `two` is in the small and the large set
+// only.  So each intersection holds exactly {all} for each user, whatever the order in which an
+// engine visits the operands, picks the smallest one or filters by the others.  A few random
+// tuples (other subjects, conditions) are added on top.
+func (g *gen) wideIntersection() *Scenario {
+	r := g.r
+	g.s.Shape = "c05-wide-intersection"
+	ops := []string{"owner", "editor", "viewer"}
+	order := func() []*Rewrite {
+		o := append([]string{}, ops...)
+		rec.Shuffle(r, o)
+		return []*Rewrite{Comp(o[0]), Comp(o[1]), Comp(o[2])}
+	}
+	o4 := order()
+	o5 := order()
+	g.s.Types = []TypeDef{{Name: "user"},
+		{Name: "group", Rels: []RelDef{{Name: "member", RW: This(), Restr: []Restr{RObj("user")}}}},
+		{Name: "doc", Rels: []RelDef{
+			{Name: "owner", RW: This(), Restr: []Restr{RObj("user")}},
+			{Name: "editor", RW: This(), Restr: []Restr{RObj("user"), g.maybeCond(RSet("group", "member"))}},
+			{Name: "viewer", RW: This(), Restr: []Restr{RObj("user"), RWild("user")}},
+			{Name: "allowed", RW: Inter(order()...)},
+			{Name: "member", RW: Inter(order()...)},
+			{Name: "blocked", RW: Inter(order()...)},
+			{Name: "wide", RW: Inter(This(), o4[0], o4[1], o4[2]), Restr: []Restr{RObj("user")}},
+			{Name: "nested", RW: Inter(o5[0], Inter(o5[1], o5[2]))},
+		}}}
+	ids := []string{"1", "2", "3", "4", "5", "6"}
+	rec.Shuffle(r, ids)
+	all, two, m1, m2, l1, l2 := ids[0], ids[1], ids[2], ids[3], ids[4], ids[5]
+	sets := [][]string{{all, two}, {all, m1, m2}, {all, two, l1, l2}}
+	seen := map[string]bool{}
+	add := func(t Tuple) {
+		if !seen[t.Key()] {
+			seen[t.Key()] = true
+			g.s.Tuples = append(g.s.Tuples, t)
+		}
+	}
+	for _, u := range userIDs {
+		assign := []int{0, 1, 2}
+		rec.Shuffle(r, assign)
+		for i, rel := range ops {
+			for _, id := range sets[assign[i]] {
+				add(Tuple{Obj: "doc:" + id, Rel: rel, User: "user:" + u})
+			}
+		}
+		for _, id := range ids {
+			if r.Chance(1, 2) {
+				add(Tuple{Obj: "doc:" + id, Rel: "wide", User: "user:" + u})
+			}
+		}
+	}
+	// noise: group memberships, userset and wildcard assignments
+	for i, n := 0, r.Intn(5); i < n; i++ {
+		gid := rec.Pick(r, []string{"1", "2"})
+		switch r.Intn(3) {
+		case 0:
+			add(Tuple{Obj: "group:" + gid, Rel: "member", User: "user:" + rec.Pick(r, userIDs)})
+		case 1:
+			rs := g.s.Rel("doc", "editor").Restr[1]
+			t := Tuple{Obj: "doc:" + rec.Pick(r, ids), Rel: "editor", User: "group:" + gid + "#member", Cond: rs.Cond}
+			t.Ctx = g.ctxFor(t.Cond)
+			add(t)
+		default:
+			add(Tuple{Obj: "doc:" + rec.Pick(r, ids), Rel: "viewer", User: "user:*"})
+		}
+	}
+	rec.Shuffle(r, g.s.Tuples)
+	g.dropUnusedConds()
+	g.reqctx()
+	return g.s
 }
